@@ -664,7 +664,7 @@ def r3_counters(ctx):
                     "payload operator table (%s): operations are double "
                     "counted or counted where none happens" % f.key)
     f = ctx.method("Compute", "numOps")
-    src = " ".join(text(s) for s in f.body).replace(" ", "")
+    src = "\n".join(text(s) for s in f.body).replace(" ", "")
     okn = any(pat.inline(ctx, f, r.value).replace(" ", "") ==
               "dump['Compute']['payload_'+op]" for r in pat.returns(f))
     if okn:
